@@ -2,6 +2,11 @@ package main
 
 import (
 	"fmt"
+	goast "go/ast"
+	goparser "go/parser"
+	gotoken "go/token"
+	"path/filepath"
+	"strconv"
 	"strings"
 	"unicode"
 
@@ -184,7 +189,8 @@ func runC05(w *W) {
 			for i, sp := range spans {
 				text := src[sp.Start:sp.End]
 				// keyword used as a keyword: its spelling does not show up in EXPLAIN
-				if sp.Tok.IsKeyword() && r.Chance(1, 2) && !wholeWord(baseJoined, text) && !wholeWord(baseJoined, sp.Val) {
+				soft := sp.Tok == token.IDENT && !sp.Quoted && softKeywords()[strings.ToUpper(text)]
+				if (sp.Tok.IsKeyword() || soft) && r.Chance(1, 2) && !wholeWord(baseJoined, text) && !wholeWord(baseJoined, sp.Val) {
 					nt := flipCase(r, text)
 					if nt != text {
 						text = nt
@@ -278,6 +284,49 @@ func runC05(w *W) {
 			}
 		}
 	}
+}
+
+// softKeywords: the words the parser compares identifiers with (every all-upper-case string literal of package
+// parser, read from the source being checked): INTERVAL units, TOTALS, ROLLUP, … are lexed as identifiers but used as
+// keywords, so C05's "letter case of SQL keywords used as keywords" applies to them wherever their spelling does not
+// show up in the EXPLAIN text.
+var softKW map[string]bool
+
+func softKeywords() map[string]bool {
+	if softKW != nil {
+		return softKW
+	}
+	softKW = map[string]bool{}
+	fset := gotoken.NewFileSet()
+	matches, _ := filepath.Glob(filepath.Join(repoDir, "parser", "*.go"))
+	for _, fn := range matches {
+		if strings.HasSuffix(fn, "_test.go") {
+			continue
+		}
+		f, err := goparser.ParseFile(fset, fn, nil, goparser.SkipObjectResolution)
+		if err != nil {
+			continue
+		}
+		goast.Inspect(f, func(n goast.Node) bool {
+			if bl, ok := n.(*goast.BasicLit); ok && bl.Kind == gotoken.STRING {
+				if v, err := strconv.Unquote(bl.Value); err == nil && len(v) >= 2 && len(v) <= 24 && strings.ToUpper(v) == v && strings.ToLower(v) != v {
+					for _, wd := range strings.Fields(v) {
+						ok := true
+						for i := 0; i < len(wd); i++ {
+							if !(wd[i] >= 'A' && wd[i] <= 'Z' || wd[i] == '_') {
+								ok = false
+							}
+						}
+						if ok && len(wd) >= 2 {
+							softKW[wd] = true
+						}
+					}
+				}
+			}
+			return true
+		})
+	}
+	return softKW
 }
 
 func firstRune(s string) (rune, int) {
